@@ -104,6 +104,8 @@ def part(ctx):
         h.MAX_LIVE = 9                                      # source, three chained and three one-step folds stay observed
         src = make_source(ctx, h, dist)
         if src is None:
+            hists['c07db-%d' % i] = h               # whatever the source construction did is still compared with the model
+            dist['source_unusable'] = dist.get('source_unusable', 0) + 1
             continue
         d = h.pool[src]
         before = (dbgen.db_lit(dbgen.obs_db(d)), str(dbgen.obs_items(d)))
